@@ -96,6 +96,7 @@ func hostOfChain(sim *chain.Sim, cur []held, salt uint64) *host {
 			h.addProofParent(v)
 		}
 	}
+	h.fund, _ = h.funding(cur)
 	return h
 }
 
